@@ -22,7 +22,7 @@ CANON = {  # canonical dotted name -> handler suffix
     "numpy.array": "np_array", "numpy.asarray": "np_array", "numpy.zeros": "np_zeros", "numpy.empty": "np_empty",
     "numpy.concatenate": "np_concatenate", "numpy.isfinite": "np_isfinite", "numpy.diff": "np_diff",
     "numpy.cumsum": "np_cumsum", "numpy.nonzero": "np_nonzero", "numpy.minimum": "np_minimum",
-    "numpy.maximum": "np_maximum", "numpy.ceil": "np_ceil", "numpy.mean": "np_mean", "numpy.all": "np_all",
+    "numpy.maximum": "np_maximum", "numpy.ceil": "np_ceil", "numpy.floor": "np_floor", "numpy.mean": "np_mean", "numpy.all": "np_all",
     "numpy.alltrue": "np_missing", "numpy.NaN": "np_missing_attr", "numpy.int64": "dtype_int", "numpy.float64": "dtype_float",
     "numpy.argwhere": "np_argwhere", "numpy.allclose": "np_allclose", "numpy.isscalar": "np_isscalar",
     "numpy.interp": "np_interp", "numpy.issubdtype": "np_issubdtype", "numpy.integer": "dtype_int",
@@ -122,10 +122,12 @@ class Lib:
         rng = zand(ex.cmp_le(lo, v), ex.cmp_lt(v, hi))
         tok = s2.push(rng)
         ex.binders += 1
+        ex.bound_stack.append(v)
         try:
             body = ex.truth(ex.eval(lam.body, s2))
         finally:
             ex.binders -= 1
+            ex.bound_stack.pop()
         s2.pop(tok)
         _carry(st, s2, drop=0)
         pats = []
@@ -179,10 +181,12 @@ class Lib:
             s2.locals[n] = v
         body = lam.body
         ex.binders += 1
+        ex.bound_stack.extend(vs)
         try:
             bz = to_z3(ex.truth(ex.eval(body, s2)))
         finally:
             ex.binders -= 1
+            del ex.bound_stack[-len(vs):]
         _carry(st, s2)
         return z3.ForAll(vs, bz) if universal else z3.Exists(vs, bz)
 
@@ -235,6 +239,30 @@ class Lib:
                 sorts.append(R)
                 terms.append(to_z3(as_real(v)))
         return self.ctx.uf(name, *(sorts + [R]))(*terms)
+
+    def sf_antiderivative_of(self, ex, node, st):
+        from .objects import antiderivative_of
+        return antiderivative_of(self.ctx, ex.eval(node.args[0], st))
+
+    def sf_forall_real(self, ex, node, st):
+        lam = node.args[0]
+        names = [a.arg for a in lam.args.args]
+        vs = [z3.Real(uid(n)) for n in names]
+        from .values import BOUND
+        for v in vs:
+            BOUND.add(v.decl().name())
+        s2 = st.fork()
+        for n, v in zip(names, vs):
+            s2.locals[n] = v
+        ex.binders += 1
+        ex.bound_stack.extend(vs)
+        try:
+            bz = to_z3(ex.truth(ex.eval(lam.body, s2)))
+        finally:
+            ex.binders -= 1
+            del ex.bound_stack[-len(vs):]
+        _carry(st, s2)
+        return z3.ForAll(vs, bz)
 
     def sf_close(self, ex, node, st):
         """Equality of reals (SMT reading); equality up to rounding in the native reading."""
@@ -369,7 +397,16 @@ class Lib:
             st.assume(znot(w))
         facts = []
         result = None
-        if c.returns and c.returns != "none":
+        bvs = list(ex.bound_stack)
+        if bvs and c.returns in ("real", "int", "bool"):
+            # called under quantifier-bound variables: the result is a function of them, and the
+            # callee's postcondition is assumed for all their values
+            from .values import _SORT
+            F = z3.Function(uid(short.replace(".", "_") + "_resf"), *([v.sort() for v in bvs] + [_SORT[c.returns]]))
+            result = F(*bvs)
+        elif bvs and c.returns and c.returns != "none":
+            raise EngineError("%s:L%d: call of %s under a bound variable with a non-scalar result" % (ex.fnname, node.lineno, rf.qualname))
+        elif c.returns and c.returns != "none":
             result = fresh(parse_type(c.returns), short.replace(".", "_") + "_res", (), facts)
         for f in facts:
             if not isinstance(f, tuple):
@@ -404,7 +441,13 @@ class Lib:
                 if not isinstance(f, tuple):
                     st.assume(f)
         for e in c.ensures:
-            st.assume(ev(e))
+            fact = ev(e)
+            if bvs:
+                if fact is True:
+                    continue
+                st.pc.append(z3.ForAll(bvs, to_z3(zimp(zand(*[t for t in st.temps]), fact))))
+            else:
+                st.assume(fact)
         return result
 
     # ------------------------------------------------------------------ attribute access
@@ -810,7 +853,8 @@ class Lib:
 
     def b_enumerate(self, ex, st, args, kwargs, node):
         s = ex.as_seq(args[0], st)
-        return Seq(s.n, lambda i, s=s: (i, s.at(i)), "gen")
+        start = as_int(kwargs.get("start", args[1] if len(args) > 1 else 0))
+        return Seq(s.n, lambda i, s=s: (i + start, s.at(i)), "gen")
 
     def b_int(self, ex, st, args, kwargs, node):
         v = args[0]
@@ -1171,6 +1215,18 @@ class Lib:
         if isinstance(v, Seq):
             return Seq(v.n, lambda i: ceil(v.at(i)), "array")
         return ceil(v)
+
+    def b_np_floor(self, ex, st, args, kwargs, node):
+        def floor(x):
+            x = as_real(x)
+            if not is_z3(x):
+                import math
+                return Fraction(math.floor(x))
+            return z3.ToReal(z3.ToInt(x))
+        v = args[0]
+        if isinstance(v, Seq):
+            return Seq(v.n, lambda i: floor(v.at(i)), "array")
+        return floor(v)
 
     def b_np_mean(self, ex, st, args, kwargs, node):
         v = args[0]
